@@ -83,6 +83,8 @@ def history(dc, sc, res, rng, label):
             return [b'x' * 100, n[0]]
         if r < 0.6:
             return rng.randrange(4)       # small ints repeat, so remove/count/compare are interesting
+        if r < 0.7:
+            return gen.pick(rng, [None, 1.0, True, 0.0, False, ''])    # == across types, falsy values
         return ('t', n[0] % 5)
 
     def fail(what, **kw):
@@ -149,6 +151,10 @@ def history(dc, sc, res, rng, label):
                     other.append(1)
                 elif m < 0.7 and other:
                     other.pop()
+                elif m < 0.85 and other:
+                    # different length AND a differing early element
+                    other[0] = gen.pick(rng, [0, 1, 2, 3])
+                    other.extend([1, 2][:rng.randrange(1, 3)]) if rng.random() < 0.5 else other.pop()
                 cmp_ = gen.pick(rng, [operator.eq, operator.ne, operator.lt, operator.le, operator.gt, operator.ge])
                 args = (cmp_.__name__, list(other)[:6])
                 got, exp = outcome(lambda: cmp_(D, other)), outcome(lambda: cmp_(R, other))
